@@ -27,8 +27,12 @@ def gen_lines(rng, R):
             w = R + w
         if rng.random() < 0.1:
             w = w + R
-        w = w.strip(" \t")
+        w = w.lstrip(" \t")            # leading blanks are outside the statement; trailing ones belong to "the entire line"
+        if rng.random() < 0.25:
+            w = w.rstrip(" \t") + rng.choice([" ", "  ", "\t", " \t "])
         if any(c in w for c in "'\"\\"):
+            continue
+        if w.strip(" \t") == "":
             continue
         lines.append(w)
     return lines
@@ -165,7 +169,7 @@ def run(ctx):
                 "initial argument lists with 0-3 occurrences of R per argument, R in {{}, _, %, XX, {, @@} spelled -I R / -IR / "
                 "--replace=R / -i / --replace, -I with -n 1, and every ordering of every subset of {-I, -n, -L}; "
                 "distinct = (options, initial arguments, input)")
-    ctx.assumptions = ["lines free of quotes, backslashes, leading and trailing blanks (statement's own restriction)"]
+    ctx.assumptions = ["lines free of quotes, backslashes and leading blanks (statement's own restriction); blank-only lines not used"]
     if ctx.replay:
         import json
         rp = json.load(open(ctx.replay))["replay"]
